@@ -36,7 +36,7 @@ def cases(tier, seed):
                                         hprog=30, hcb=8, p_mask=6, p_progress=10, p_wait=25, sizes=(0, 8, 100, 600, 1500, 5000), other=rng.choice([0, 0, 0, 50]))
                     out.append((sc, T.Config(N, P, routing, kb, irecvs=rng.choice([1, 2, 8]), isends_wait=rng.choice([0, 1, 4]),
                                              issend=rng.choice([0, 1, 8]), policy=rng.choice(T.POLICIES), eager=rng.choice([0, 0, 50, 100]),
-                                             sim_seed=rng.below(1 << 30))))
+                                             sim_seed=rng.below(1 << 30), placement=("cyclic" if N > 1 and rng.below(4) == 0 else None))))
     return out
 
 
